@@ -120,20 +120,20 @@ fn sweep<C: BitRepr>(rep: &Report, local: &mut Local, c: &C, t: &Target) {
                 }
                 Ok(Ok(())) => {
                     local.outcome("ok_returned");
-                    rep.violation(&format!("error_swallowed|{kind}|{flavour:?}"), &format!("{kind}: sink failed on operation {k} of {n_ops} ({flavour:?}) but write returned Ok"), tj(), w);
+                    rep.violation_conclusive(&format!("error_swallowed|{kind}|{flavour:?}"), &format!("{kind}: sink failed on operation {k} of {n_ops} ({flavour:?}) but write returned Ok"), tj(), w);
                     continue;
                 }
                 Ok(Err(e)) => {
                     if e != "sink" {
                         local.outcome("wrong_error");
-                        rep.violation(&format!("wrong_error|{kind}|{flavour:?}"), &format!("{kind}: sink failed on operation {k} ({flavour:?}) but write returned {e} instead of the sink's error"), tj(), w);
+                        rep.violation_conclusive(&format!("wrong_error|{kind}|{flavour:?}"), &format!("{kind}: sink failed on operation {k} ({flavour:?}) but write returned {e} instead of the sink's error"), tj(), w);
                         continue;
                     }
                 }
             }
             if accepted.len() > reference.len() || accepted[..] != reference[..accepted.len()] {
                 local.outcome("not_a_prefix");
-                rep.violation(&format!("accepted_bits_not_prefix|{kind}|{flavour:?}"), &format!("{kind}: bits accepted before the failure at operation {k} ({} bits) are not a prefix of the correct bit string ({} bits)", accepted.len(), reference.len()), tj(), w);
+                rep.violation_conclusive(&format!("accepted_bits_not_prefix|{kind}|{flavour:?}"), &format!("{kind}: bits accepted before the failure at operation {k} ({} bits) are not a prefix of the correct bit string ({} bits)", accepted.len(), reference.len()), tj(), w);
                 continue;
             }
             if after > 0 {
